@@ -34,12 +34,17 @@ pub fn dispatch(id: &str, tier: Tier, seed: u64, replay: Option<&str>) -> i32 {
                 if text.contains("\"crash_accounting\"") {
                     return crashprops::replay_accounting(path);
                 }
+                if text.contains("conc:C13D") {
+                    return concprops::replay_sub("C13D", path);
+                }
                 return seqprops::run(id, tier, seed, replay);
             }
             let code = seqprops::run(id, tier, seed, None);
             let (ucode, summary) = crashprops::accounting_campaign(tier, seed);
             fold_into_evidence("C13", "recovery_of_crash_images", summary, "images", ucode);
-            code.max(ucode)
+            let (dcode, dev) = concprops::run_campaign("C13D", "C13", tier, seed);
+            fold_into_evidence("C13", "concurrent_writers_against_a_limit", concprops::sub_summary(&dev), "executions", dcode);
+            code.max(ucode).max(dcode)
         }
         "C11" => {
             if let Some(path) = replay {
@@ -47,12 +52,17 @@ pub fn dispatch(id: &str, tier: Tier, seed: u64, replay: Option<&str>) -> i32 {
                 if text.contains("\"synth_recovery\"") {
                     return synthrec::replay(path);
                 }
+                if text.contains("conc:C11D") {
+                    return concprops::replay_sub("C11D", path);
+                }
                 return seqprops::run(id, tier, seed, replay);
             }
             let code = seqprops::run(id, tier, seed, None);
             let (ucode, summary) = synthrec::campaign("C11", tier, seed);
             fold_into_evidence("C11", "recovery_of_synthesised_images", summary, "images", ucode);
-            code.max(ucode)
+            let (dcode, dev) = concprops::run_campaign("C11D", "C11", tier, seed);
+            fold_into_evidence("C11", "sweeper_racing_writers", concprops::sub_summary(&dev), "executions", dcode);
+            code.max(ucode).max(dcode)
         }
         "C16" => {
             if let Some(path) = replay {
